@@ -14,6 +14,8 @@ MAXMSG = 32768
 CFG_MAIN = {"max_incomplete": 64, "auth_timeout": 120000, "max_message_size": MAXMSG}
 CFG_BOUND = {"max_incomplete": 4, "auth_timeout": 120000, "max_message_size": MAXMSG}
 CFG_TIMED = {"max_incomplete": 4, "auth_timeout": 1000, "max_message_size": MAXMSG}
+CFG_CLOSE = {"max_incomplete": 64, "auth_timeout": 120000, "max_message_size": MAXMSG, "fresh_daemon": 1}   # one daemon per script: unique names are predictable
+FIRST_UNIQUE = 4          # on a fresh daemon of the run: :1.0 monitor, :1.1/:1.2 the pair, :1.3 the observer
 CFG_QUOTA = {"max_incomplete": 64, "auth_timeout": 120000, "max_message_size": MAXMSG, "extra_limits": {"max_outgoing_bytes": 200000}}
 
 AUTH_LINE = b"AUTH EXTERNAL " + str(UID).encode().hex().encode() + b"\r\n"
@@ -480,6 +482,121 @@ def gen_quota(rnd, n=None, cfg=None):
     return d
 
 
+def request_name(serial, name, flags=0):
+    return Msg(METHOD_CALL, 0, serial, {F_PATH: "/org/freedesktop/DBus", F_MEMBER: "RequestName", F_INTERFACE: DRIVER, F_DESTINATION: DRIVER}, "su", (name, flags))
+
+
+def add_match(serial, rule):
+    return Msg(METHOD_CALL, 0, serial, {F_PATH: "/org/freedesktop/DBus", F_MEMBER: "AddMatch", F_INTERFACE: DRIVER, F_DESTINATION: DRIVER}, "s", (rule,))
+
+
+def become_monitor(serial):
+    return Msg(METHOD_CALL, 0, serial, {F_PATH: "/org/freedesktop/DBus", F_MEMBER: "BecomeMonitor", F_INTERFACE: DRIVER + ".Monitoring", F_DESTINATION: DRIVER}, "asu", ([], 0))
+
+
+CLOSE_STATES = ("self-unique", "self-name", "self-answered", "self-noreply-flag", "to-other", "from-other", "owns-queued-by-other", "queued-on-other",
+                "match-rules", "monitor", "half-message", "unread-queue", "many-pending")
+
+
+def gen_close(rnd, states=None, how=None):
+    """abrupt close with something outstanding: pending calls to itself (unique / owned name), to and from others, owned and
+    queued names, match rules, being a monitor, a half-written message, an unread queue.  Fresh daemon per script, so the unique
+    names are :1.4, :1.5, ... in Hello order and the model predicts every NameOwnerChanged and NoReply."""
+    s = Script("close", CFG_CLOSE, rnd)
+    n = rnd.choice((1, 2, 2, 3))
+    conns = [s.conn() for _ in range(n)]
+    ev = []
+    uniq = {}
+    for i, c in enumerate(conns):
+        ev += ["C%d" % c, "W%d:%s" % (c, (AUTH_OK + hello().encode()).hex())]
+        uniq[c] = ":1.%d" % (FIRST_UNIQUE + i)
+    x = conns[0]
+    y = conns[1] if n > 1 else None
+    states = list(states) if states else rnd.sample(CLOSE_STATES, rnd.randint(1, 4))
+    noread = []
+    tag = 0
+
+    def w(c, m):
+        ev.append("W%d:%s" % (c, (m if isinstance(m, bytes) else m.encode()).hex()))
+
+    def call(frm, dest, flags=0, **kw):
+        return Msg(METHOD_CALL, flags, s.next_serial(), {F_PATH: "/c", F_INTERFACE: "c10.I", F_MEMBER: "M", F_DESTINATION: dest}, "s", (s.canary().decode(),), le=rnd.random() < 0.7)
+    later_monitor = False
+    for st in states:
+        tag += 1
+        if st == "self-unique":
+            for _ in range(rnd.choice((1, 1, 3))):
+                w(x, call(x, uniq[x]))
+        elif st == "self-name":
+            nm = "c10.self%d" % tag
+            w(x, request_name(s.next_serial(), nm, rnd.choice((0, 4))))
+            w(x, call(x, nm))
+        elif st == "self-answered":
+            m = call(x, uniq[x])
+            w(x, m)
+            w(x, Msg(METHOD_RETURN, 1, s.next_serial(), {F_REPLY_SERIAL: m.serial, F_DESTINATION: uniq[x]}))
+        elif st == "self-noreply-flag":
+            w(x, call(x, uniq[x], flags=1))
+        elif st == "to-other" and y:
+            w(x, call(x, uniq[y]))
+        elif st == "from-other" and y:
+            for _ in range(rnd.choice((1, 2))):
+                w(y, call(y, uniq[x]))
+        elif st == "owns-queued-by-other" and y:
+            nm = "c10.q%d" % tag
+            w(x, request_name(s.next_serial(), nm, 0))
+            w(y, request_name(s.next_serial(), nm, 0))
+            if rnd.random() < 0.5:
+                w(y, call(y, nm))                 # pending call to x through the name
+        elif st == "queued-on-other" and y:
+            nm = "c10.w%d" % tag
+            w(y, request_name(s.next_serial(), nm, 0))
+            w(x, request_name(s.next_serial(), nm, 0))
+        elif st == "match-rules":
+            for r in rnd.sample(["type='signal'", "sender='%s'" % uniq[x], "interface='c10.I',member='M'", "arg0='x'", "path_namespace='/c'", "eavesdrop='true'"], rnd.randint(1, 4)):
+                w(x, add_match(s.next_serial(), r))
+        elif st == "monitor":
+            later_monitor = True
+        elif st == "half-message":
+            pass
+        elif st == "unread-queue":
+            noread.append(x)
+            w(x, b"".join(introspect(s.next_serial()).encode() for _ in range(rnd.choice((3, 20)))))
+        elif st == "many-pending" and y:
+            for _ in range(rnd.choice((5, 12))):
+                w(rnd.choice((x, y)), call(None, rnd.choice((uniq[x], uniq[y]))))
+    if later_monitor:
+        w(x, become_monitor(s.next_serial()))
+    if "half-message" in states:
+        m = call(x, uniq[x]).encode()
+        w(x, m[:rnd.randrange(1, len(m))])
+    # ---- the close itself
+    how = how or rnd.choice(("close", "close", "close", "invalid", "policy"))
+    if later_monitor and how == "policy":
+        w(x, getid(s.next_serial()))               # "monitors are not allowed to send": the bus closes it
+    elif how == "close" or later_monitor:
+        ev.append("X%d" % x)
+    elif how == "invalid":
+        w(x, b"\x00" * 16)                       # if a half message is pending this completes garbage; either way the stream turns invalid
+        w(x, b"\xff" * 32)
+    else:
+        # the bus closes it: a monitor is not allowed to send; otherwise fall back to a plain close
+        ev.append("X%d" % x)
+    # ---- afterwards: the others go on, then leave too
+    for c in conns[1:]:
+        w(c, getid(s.next_serial()))
+        if rnd.random() < 0.5:
+            w(c, call(c, uniq[x]))               # the name is gone: error to the sender, nothing pending
+    for c in conns[1:]:
+        if rnd.random() < 0.7:
+            ev.append("X%d" % c)
+    d = s.done(ev)
+    d["fresh"] = True
+    d["noread"] = noread
+    d["states"] = states + [how]
+    return d
+
+
 def hand_written():
     """boundary scenarios (also kept in corpus/C10)"""
     rnd = random.Random(0)
@@ -524,7 +641,7 @@ def hand_written():
 FAMILIES = [(gen_mutation, 30), (gen_limits, 8), (gen_truncate, 10), (gen_handshake, 14), (gen_prehello, 10), (gen_oversized, 4), (gen_many_unauth, 8)]
 
 
-def generate(rnd, n_plain, n_flood, n_timed, n_blast=0):
+def generate(rnd, n_plain, n_flood, n_timed, n_blast=0, n_close=0):
     scripts = hand_written()
     tot = sum(w for _, w in FAMILIES)
     for _ in range(n_plain):
@@ -542,4 +659,9 @@ def generate(rnd, n_plain, n_flood, n_timed, n_blast=0):
         scripts.append(gen_blast(rnd))
     for _ in range(2):
         scripts.append(gen_quota(rnd))
+    # abrupt close with outstanding state: every single state once (the first three are the self-call class), then random mixes
+    for st in CLOSE_STATES[:6]:
+        scripts.append(gen_close(rnd, [st], "close"))
+    for _ in range(n_close):
+        scripts.append(gen_close(rnd))
     return scripts
